@@ -9,16 +9,32 @@ theorem verifyHmac_eq (key iv md : Bytes) (pid : Option Bytes) (tlvs : Bytes) (h
   unfold verifyHmac
   simp only [NONCE_LEN, h, ↓reduceIte, beq_iff_eq]
 
+/-- the generated decisions of `verify_metadata`, in closed form.  `keysEq_iff` is where the
+    REPRESENTATION compared by the Rust code matters: it holds for the full 33-byte compressed key and
+    fails for an x-only comparison (two keys of opposite parity would compare equal). -/
+theorem derivesKeys_iff (n : Nat) : C18Meta.derivesKeys n = true ↔ n = 16 := by
+  unfold C18Meta.derivesKeys
+  exact decide_eq_true_iff
+
+theorem keysEq_iff (a b : Bytes) : C18Meta.keysEq a b = true ↔ a = b := by
+  simp [C18Meta.keysEq, SecpKey.fixedTimeEq, SecpKey.PublicKey.serialize]
+
+theorem hmacOk_iff (md hm : Bytes) : C18Meta.hmacOk md hm = true ↔ md.length = 48 ∧ md.drop 16 = hm := by
+  simp only [C18Meta.hmacOk, SecpKey.fixedTimeEq, Bool.and_eq_true, decide_eq_true_eq, beq_iff_eq]
+  simp only [C18Consts.NONCE_LENGTH, SecpKey.SHA256_LEN, Nat.reduceAdd]
+
 theorem verifyTail_noKeys (md hm pk : Bytes) :
     verifyTail pubOf md hm pk = .okNoKeys ↔ md.length = 48 ∧ md.drop 16 = hm := by
   unfold verifyTail
-  simp only [NONCE_LEN, MAC_LEN, beq_iff_eq]
   by_cases h16 : md.length = 16
-  · simp only [h16, ↓reduceIte]
+  · simp only [(derivesKeys_iff _).mpr h16, ↓reduceIte]
     constructor
     · intro h; split at h <;> simp at h
     · intro h; omega
-  · simp only [h16, ↓reduceIte, Bool.and_eq_true, beq_iff_eq]
+  · have hd : C18Meta.derivesKeys md.length = false := by
+      rw [Bool.eq_false_iff]; exact fun h => h16 ((derivesKeys_iff _).mp h)
+    simp only [hd, Bool.false_eq_true, ↓reduceIte]
+    rw [← hmacOk_iff]
     constructor
     · intro h; split at h
       · assumption
@@ -28,18 +44,47 @@ theorem verifyTail_noKeys (md hm pk : Bytes) :
 theorem verifyTail_keys (md hm pk sk : Bytes) :
     verifyTail pubOf md hm pk = .okKeys sk ↔ md.length = 16 ∧ sk = hm ∧ pubOf hm = pk := by
   unfold verifyTail
-  simp only [NONCE_LEN, MAC_LEN, beq_iff_eq]
   by_cases h16 : md.length = 16
-  · simp only [h16, ↓reduceIte, true_and]
+  · have hd : C18Meta.derivesKeys md.length = true := (derivesKeys_iff _).mpr h16
+    simp only [hd, ↓reduceIte]
+    simp only [h16, true_and]
     constructor
     · intro h; split at h
-      · rename_i hp; simp only [Verdict.okKeys.injEq] at h; exact ⟨h.symm, hp⟩
+      · rename_i hp; simp only [Verdict.okKeys.injEq] at h
+        exact ⟨h.symm, ((keysEq_iff _ _).mp hp).symm⟩
       · simp at h
-    · rintro ⟨rfl, hp⟩; simp [hp]
-  · simp only [h16, ↓reduceIte, false_and, iff_false]
+    · rintro ⟨rfl, hp⟩
+      have : C18Meta.keysEq pk (pubOf sk) = true := (keysEq_iff _ _).mpr hp.symm
+      simp [this]
+  · have hd : C18Meta.derivesKeys md.length = false := by
+      rw [Bool.eq_false_iff]; exact fun h => h16 ((derivesKeys_iff _).mp h)
+    simp only [hd, Bool.false_eq_true, ↓reduceIte, h16, false_and, iff_false]
     intro h
-    by_cases c : (List.length md == 16 + 32 && List.drop 16 md == hm) = true <;> simp [c] at h
+    split at h <;> simp at h
 
+/-- flipping the parity byte of a (non-empty) compressed key gives another key -/
+theorem flipParity_ne (pk : Bytes) (h : pk ≠ []) : SecpKey.PublicKey.flipParity pk ≠ pk := by
+  cases pk with
+  | nil => exact absurd rfl h
+  | cons p x =>
+    intro he
+    simp only [SecpKey.PublicKey.flipParity, List.cons.injEq, and_true] at he
+    have h2 : p ^^^ (p ^^^ 1) = p ^^^ p := by rw [he]
+    rw [← UInt8.xor_assoc, UInt8.xor_self, UInt8.zero_xor] at h2
+    exact absurd h2 (by decide)
+
+/-- a no-keys acceptance needs 48 bytes of metadata, a keys acceptance 16 -/
+theorem verifyRecipient_noKeys_len (key iv pk tlvs md : Bytes) :
+    verifyRecipient mac pubOf key iv pk tlvs md = .okNoKeys ↔
+      md.length = 48 ∧ verifyRecipient mac pubOf key iv pk tlvs md = .okNoKeys := by
+  constructor
+  · intro h
+    refine ⟨?_, h⟩
+    unfold verifyRecipient at h
+    cases hh : verifyHmac mac key iv md none tlvs with
+    | none => simp [hh] at h
+    | some hm => simp only [hh] at h; exact ((verifyTail_noKeys pubOf md hm pk).mp h).1
+  · exact fun h => h.2
 
 /-! ### record ranges -/
 open Ldk.Merkle (Rec)
